@@ -11,3 +11,4 @@ import Theorems.Lemmas.Codec
 import Theorems.C03
 import Theorems.C20
 import Theorems.C04
+import Theorems.C10
